@@ -21,14 +21,14 @@ def jobs(tier):
     fam_quick = [("y", 12), ("b", 12), ("n", 12), ("q", 12), ("i", 12), ("u", 12), ("h", 12), ("x", 16), ("t", 16), ("d", 16),
                  ("s", 12), ("o", 12), ("g", 10), ("yu", 12), ("us", 12), ("sy", 12), ("ay", 12), ("ab", 12), ("au", 12), ("an", 12), ("at", 16),
                  ("(yu)", 12), ("(sy)", 12), ("as", 9), ("ao", 9), ("a{ys}", 9), ("a(yy)", 10), ("aay", 9)]
-    fam_thorough = [("ag", 6), ("v", 7), ("as", 12), ("ao", 12), ("ag", 10), ("a{ys}", 12), ("a{su}", 12), ("aay", 12), ("aau", 12), ("v", 9), ("yv", 9), ("a(yv)", 9), ("(ys)", 14),
+    fam_thorough = [("ag", 6), ("v", 7), ("as", 12), ("ao", 12), ("a{ys}", 12), ("a{su}", 12), ("aay", 12), ("aau", 10), ("yv", 9), ("a(yv)", 9), ("(ys)", 14),
                     ("a{sv}", 9), ("yyyyuua(yv)", 20), ("su", 16), ("ss", 14), ("(u(yy))", 16), ("a(us)", 12)]
     for fam, tiers in ((fam_quick, ("quick", "thorough")), (fam_thorough, ("thorough",))):
         for sig, n in fam:
             heavy = any(c in sig for c in "v") or sig.startswith("aa") or sig in ("as", "ao", "ag", "a{ys}", "a{su}", "a{sv}", "a(us)")
             J.append(Job(name=f"b.body.{sig}.N{n}", group="C01.b", harness="harness/C01_body.c", defines={"SIG": '"' + sig + '"', "N": n},
                          real=BODY_REAL, env=ENV + ["list_lifo.c"], unwind=n + 3, unwindset=["validate_body_helper:4", "ref_value:4"],
-                         timeout=600 if "quick" in tiers else 1800, mem_gb=16 if heavy else 8, tiers=tiers, ignore=ART, termination_is_property=True,
+                         timeout=600 if "quick" in tiers else 1800, mem_gb=(26 if sig == "ag" else 16) if heavy or sig == "ag" else 8, tiers=tiers, ignore=ART, termination_is_property=True,
                          encodes=["_dbus_validate_body_with_reason", "validate_body_helper", "_dbus_type_reader_init_types_only", "_dbus_type_reader_recurse",
                                   "_dbus_type_reader_next", "_dbus_type_reader_get_current_type", "_dbus_type_reader_get_element_type", "_dbus_validate_path",
                                   "_dbus_string_validate_utf8", "_dbus_validate_signature_with_reason", "_dbus_unpack_uint32", "_dbus_first_type_in_signature"],
